@@ -6,4 +6,5 @@ CONSTANTS
   SigBug = "none"
 VIEW SView
 INVARIANTS TypeOK LawUnregisterOnce LawCalledAreLive LawCallExplained
+CONSTRAINT SEmit
 CHECK_DEADLOCK FALSE
